@@ -165,6 +165,8 @@ type world struct {
 	nextSeq   int
 	blackhole int
 	sentLog   []dgram // everything ever sent (also black-holed), for oracles
+	onSend    func(s *vsock, d dgram)
+	onDeliver func(dst *vsock, src string, data []byte)
 }
 
 func newWorld() *world {
@@ -209,6 +211,9 @@ func (w *world) send(s *vsock, dst string, b []byte) {
 	d := dgram{seq: w.nextSeq, srcSock: s.name, src: w.wireAddr(s), dst: dst, data: append([]byte{}, b...)}
 	w.nextSeq++
 	w.sentLog = append(w.sentLog, d)
+	if w.onSend != nil {
+		w.onSend(s, d)
+	}
 	if w.routable(s.name, dst) == nil {
 		w.blackhole++ // can never have an effect on anyone: not kept in flight
 
@@ -243,6 +248,9 @@ func (w *world) deliver(seq int, remove, drop bool) bool {
 	dst := w.routable(d.srcSock, d.dst)
 	w.mu.Unlock()
 	if !drop && dst != nil {
+		if w.onDeliver != nil {
+			w.onDeliver(dst, d.src, d.data)
+		}
 		dst.in <- rxPacket{d.src, d.data}
 	}
 	synctest.Wait()
@@ -252,6 +260,9 @@ func (w *world) deliver(seq int, remove, drop bool) bool {
 
 // inject delivers a harness-made datagram (not part of the in-flight set).
 func (w *world) inject(to *vsock, src string, data []byte) {
+	if w.onDeliver != nil {
+		w.onDeliver(to, src, data)
+	}
 	to.in <- rxPacket{src, append([]byte{}, data...)}
 	synctest.Wait()
 }
@@ -348,6 +359,7 @@ type pairCfg struct {
 	Dev      int      `json:"dev,omitempty"`      // >0: deviation-bounded mode with this many deviations
 	PrioA    []uint32 `json:"prio_a,omitempty"`
 	PrioB    []uint32 `json:"prio_b,omitempty"`
+	Monitor  bool     `json:"monitor,omitempty"` // evaluate the C03 selection ledger after every event
 }
 
 const (
@@ -384,6 +396,8 @@ type pairWorld struct {
 	problems []vtProblem
 	contacts map[*Agent]func()
 	cmu      sync.Mutex
+	ledgers  [2]*ledger
+	monitor  bool // evaluate the C03 selection oracle after every event
 }
 
 func sideAddr(side, i int, kind string) (ip string, port int, ext string) {
@@ -494,6 +508,9 @@ func newPairWorld(raw json.RawMessage) *pairWorld {
 	if err := json.Unmarshal(raw, &pw.cfg); err != nil {
 		panic(err)
 	}
+	pw.ledgers = [2]*ledger{newLedger(), newLedger()}
+	pw.onSend = pw.ledgerSend
+	pw.onDeliver = pw.ledgerDeliver
 	cfg := pw.cfg
 	for _, b := range cfg.Blocked {
 		pw.blocked[b] = true
@@ -802,4 +819,61 @@ func (pw *pairWorld) pairReachable(local Candidate, remoteAddr string) bool {
 	}
 
 	return !pw.blocked[ls.name+">"+rs.name] && !pw.blocked[rs.name+">"+ls.name]
+}
+
+// ---------------------------------------------------------------- ledger plumbing (C03 oracle)
+
+func (pw *pairWorld) sideOfSock(s *vsock) int {
+	switch s.name[0] {
+	case 'a':
+		return 0
+	case 'b':
+		return 1
+	}
+
+	return -1
+}
+
+func (pw *pairWorld) ledgerSend(s *vsock, d dgram) {
+	i := pw.sideOfSock(s)
+	if i < 0 || pw.side[i] == nil || pw.side[i].agent == nil {
+		return
+	}
+	a := pw.side[i].agent
+	isReq, nominating := pw.ledgers[i].onSend(s.name, d.dst, d.data)
+	if isReq && nominating && !a.isControlling.Load() {
+		pw.problem("", "agent %s emitted a nomination (USE-CANDIDATE / nomination value) while in the controlled role: %s", pw.side[i].name, d.describe())
+	}
+	if isReq && a.lite && !a.isControlling.Load() {
+		pw.problem("", "lite controlled agent %s originated a Binding request: %s", pw.side[i].name, d.describe())
+	}
+}
+
+func (pw *pairWorld) ledgerDeliver(dst *vsock, src string, data []byte) {
+	i := pw.sideOfSock(dst)
+	if i < 0 || pw.side[i] == nil || pw.side[i].agent == nil {
+		return
+	}
+	a := pw.side[i].agent
+	pw.ledgers[i].onDeliver(dst.name, src, data, a.localUfrag, a.localPwd, a.remoteUfrag, a.remotePwd)
+}
+
+func (pw *pairWorld) sockNameOfLocal(c Candidate) string {
+	if s := pw.sockOfLocal(c); s != nil {
+		return s.name
+	}
+
+	return "?" + c.addr().String()
+}
+
+// checkSelections evaluates the selection oracle for both agents (call after every event).
+func (pw *pairWorld) checkSelections() {
+	for i, s := range pw.side {
+		if s == nil || s.agent == nil {
+			continue
+		}
+		if finding, msg := pw.ledgers[i].selectionVerdict(s.agent, pw.sockNameOfLocal); msg != "" {
+			pw.problem(finding, "agent %s: %s", s.name, msg)
+		}
+	}
 }
